@@ -56,6 +56,10 @@ impl<'d> SimdOp for Quantize<'_, 'd, u8> {
             let src = src_ops.load_many::<4>(src_chunk);
             let quant_i32 = src.map(|x| {
                 let y = src_ops.mul(x, scale_vec);
+                // Values beyond +/-512 saturate whatever the zero point is.
+                // Clamping first keeps the float -> int conversion in range,
+                // where all instruction sets agree.
+                let y = src_ops.clamp(y, src_ops.splat(-512.), src_ops.splat(512.));
                 let y = src_ops.to_int_round(y);
                 i32_ops.add(y, zp_vec)
             });
@@ -67,7 +71,7 @@ impl<'d> SimdOp for Quantize<'_, 'd, u8> {
 
         // Quantize tail elements.
         for src in src_chunks.remainder() {
-            let y = (src * self.inv_scale).round_ties_even() as i32;
+            let y = (src * self.inv_scale).clamp(-512., 512.).round_ties_even() as i32;
             let y = (y + self.zero_point as i32).clamp(0, u8::MAX as i32);
             dest_writer.write_scalar(y as u8);
         }
